@@ -140,7 +140,8 @@ def run(ctx):
     for u, n in sites:
         from ..repo import expand_locals
         # (a local the name was bound to first is put back: `trig_ctx_name = trig_ctx.get_name()`)
-        owner = norm(expand_locals(u.node, n.args[0])) if n.args else "?"
+        a0 = program.call_args(u, n)  # (positional or `global_ctx_name=`)
+        owner = norm(expand_locals(u.node, a0[0])) if a0 else "?"
         # the owner expression must denote a global-context name
         ok = ("global_ctx" in owner and "name" in owner.lower()) or ("ctx" in owner and "get_name()" in owner)
         ctx.check(ok, "R12.2", u.uid, "owner key is the global context name",
@@ -149,7 +150,8 @@ def run(ctx):
                   node=n, rel=u.rel, sample={"owner_expr": owner})
     rems = [(u, n) for u in program.functions() for n in body_walk(u.node) if isinstance(n, ast.Call) and call_name(n) == "Function.service_remove"]
     for u, n in rems:
-        owner = norm(n.args[0]) if n.args else "?"
+        a0 = program.call_args(u, n)
+        owner = norm(a0[0]) if a0 else "?"
         ctx.check("global_ctx" in owner, "R12.2", u.uid, "removal names the global context", msg=f"{u.uid}: service_remove is given `{owner}`", key="owner key at service_remove",
                   node=n, rel=u.rel)
     # legacy: each registered name is remembered (same number of registrations and trigger_service.add on every path)
